@@ -1,5 +1,6 @@
 use num::pow::Pow;
 
+use crate::common::INTERNAL_EXTENSION_GROUP_NAME_PREFIX;
 use crate::generator::error::{GeneratorError, GeneratorErrorType};
 use crate::intermediate::constraints::{
     Constraint, ElementOrSetOperation, ElementSetSpecs, SubtypeElements,
@@ -105,7 +106,10 @@ pub fn format_sequence_or_set_members(se: &SequenceOrSet, extensibility_implied:
             .map(|m| format!(
                 r#"{}{}: {},"#,
                 to_jer_identifier(&m.name),
-                if m.optionality != Optionality::Required {
+                // an extension addition group is present as a whole or not at all
+                if m.optionality != Optionality::Required
+                    || m.name.starts_with(INTERNAL_EXTENSION_GROUP_NAME_PREFIX)
+                {
                     "?"
                 } else {
                     ""
